@@ -30,7 +30,7 @@ vars == <<reg, inflight, queue, ctxc, hist>>
 Accepts(et, vt) ==
   CASE vt = "int"    -> et \in {"int", "any"}
     [] vt = "string" -> et \in {"string", "any"}
-    [] vt = "nil"    -> et \in {"any", "ptr", "nslice"}    \* the zero value of every element type that may be nil
+    [] vt = "nil"    -> et \in {"any", "ptr", "nslice", "func"}    \* the zero value of every element type that may be nil
     [] vt = "slice"  -> et \in {"nslice", "any"}           \* an unnamed []int is assignable to a named slice type
     [] OTHER -> FALSE
 
